@@ -7,6 +7,7 @@ CONSTANTS
   DirectMap = 1000
   EnvK = 2
   EnvC = 8
+  HoleCap = 0
   Ids = {1, 2}
   Sizes = {3, 6}
   Aligns = {1, 4}
